@@ -45,12 +45,12 @@ type val struct {
 	err error
 	// self is reachable by errors.Is as long as the value is not
 	// dissolved by a flattening parent.
-	dissolves bool // *ers.Stack or Unwrap() []error: flattened when pushed
-	under     []error // everything errors.Is must find below (and excluding) the value itself
-	flatUnder []error // what errors.Is still finds once a flattening parent dissolved the value (multi-wraps only; stack-like values: same as under)
-	flat      []error // what is pushed, in push order, when the value is pushed onto a Stack
+	dissolves bool     // *ers.Stack or Unwrap() []error: flattened when pushed
+	under     []error  // everything errors.Is must find below (and excluding) the value itself
+	flatUnder []error  // what errors.Is still finds once a flattening parent dissolved the value (multi-wraps only; stack-like values: same as under)
+	flat      []error  // what is pushed, in push order, when the value is pushed onto a Stack
 	notes     []string // annotation texts that Wrap/Wrapf/ParsePanic add as extra constituents (same positions in flat hold nil)
-	nested    bool // a Stack was pushed onto a Stack somewhere below
+	nested    bool     // a Stack was pushed onto a Stack somewhere below
 	types     [3]bool
 	depth     int
 	hasNil    bool
@@ -508,22 +508,28 @@ func TestAggregation(t *testing.T) {
 		checkSpec(t, rc)
 		return
 	}
-	rapid.Check(t, func(t *rapid.T) {
-		s := genSpec(t, rapid.IntRange(1, 4).Draw(t, "depth"))
-		v := checkSpec(t, s)
-		classes := []string{"root:" + s.K, fmt.Sprintf("depth:%d", v.depth)}
-		if v.nested {
-			classes = append(classes, "stack-in-stack")
-		}
-		if v.hasNil {
-			classes = append(classes, "has-nil")
-		}
-		if v.err == nil {
-			classes = append(classes, "result-nil")
-		}
-		vkit.Case(tAgg, vkit.Hash(s), v.depth >= 2 || (v.hasNil && nodes(s) >= 3), classes, func() any { return s })
-	})
+	rapid.Check(t, propAggregation)
 }
+
+// propAggregation is the generated property; FuzzAggregation drives the same function with
+// the native coverage-guided fuzzer (rapid.MakeFuzz decodes the bytes).
+func propAggregation(t *rapid.T) {
+	s := genSpec(t, rapid.IntRange(1, 4).Draw(t, "depth"))
+	v := checkSpec(t, s)
+	classes := []string{"root:" + s.K, fmt.Sprintf("depth:%d", v.depth)}
+	if v.nested {
+		classes = append(classes, "stack-in-stack")
+	}
+	if v.hasNil {
+		classes = append(classes, "has-nil")
+	}
+	if v.err == nil {
+		classes = append(classes, "result-nil")
+	}
+	vkit.Case(tAgg, vkit.Hash(s), v.depth >= 2 || (v.hasNil && nodes(s) >= 3), classes, func() any { return s })
+}
+
+func FuzzAggregation(f *testing.F) { f.Fuzz(rapid.MakeFuzz(propAggregation)) }
 
 // ---------------------------------------------------------------------
 // concurrent leg: a Collector holds exactly the non-nil errors added
